@@ -301,6 +301,8 @@ class Path:
     # -- branching
     def choose(self, conds, label=''):
         """Pick one of the mutually exclusive, exhaustive conditions; returns its index and assumes it."""
+        for c in conds:
+            _const_names(c, self.eng.branch_consts)      # audited at the end of the run against the bound variables of the VCs
         if self.pos < len(self.decisions):
             k = self.decisions[self.pos]
             self.pos += 1
@@ -472,6 +474,7 @@ class Engine:
         self.feas_timeout_ms = feas_timeout_ms
         self.errors = []
         self.inlined_helpers = set()      # helpers of the same module / class executed in place (Interp.helper_closure)
+        self.branch_consts = set()        # names of the constants path decisions were taken on
         self.paths = 0
         self._feas_solver = None
 
@@ -543,7 +546,45 @@ class Engine:
                 tb = traceback.format_exc().strip().splitlines()
                 self.errors.append('ungenerated: contract harness does not apply to the current tree (%s: %s) at %s [path %s]'
                                    % (type(e).__name__, e, tb[-3].strip() if len(tb) >= 3 else '', decisions))
+        # soundness guard: a path decision must never be about a variable that some VC binds by a quantifier (a library contract that
+        # evaluates an element expression under a quantifier has to use `bound`): names of decision constants vs. bound variable names
+        bn = set()
+        for vc in self.vcs.values():
+            for h in vc.hyps:
+                _bound_names(h, bn)
+            _bound_names(vc.goal, bn)
+        clash = sorted(self.branch_consts & bn)
+        if clash:
+            self.errors.append('unsupported: a path decision was taken on a quantified variable (%s)' % ', '.join(clash[:5]))
         return list(self.vcs.values())
+
+
+def _walk_terms(e, on_quant, on_const):
+    seen, todo = set(), [e]
+    while todo:
+        x = todo.pop()
+        i = x.get_id()
+        if i in seen:
+            continue
+        seen.add(i)
+        if z3.is_quantifier(x):
+            if on_quant:
+                on_quant(x)
+            todo.append(x.body())
+        elif z3.is_app(x):
+            if on_const and x.num_args() == 0 and x.decl().kind() == z3.Z3_OP_UNINTERPRETED:
+                on_const(x.decl().name())
+            todo.extend(x.children())
+
+
+def _const_names(e, acc):
+    if z3.is_expr(e):
+        _walk_terms(e, None, acc.add)
+
+
+def _bound_names(e, acc):
+    if z3.is_expr(e):
+        _walk_terms(e, lambda q: acc.update(q.var_name(i) for i in range(q.num_vars())), None)
 
 
 def values_equal(a, b):
